@@ -583,8 +583,10 @@ def call_lua_sandbox(
                 )
             else:
                 # Expand all templates, in case the Lua code actually
-                # inspects the output.
-                v = ctx._encode(v)
+                # inspects the output.  <nowiki> must be handled before
+                # encoding, exactly as expand() does, or its content would
+                # be encoded (and later expanded) like ordinary text.
+                v = ctx._encode(ctx.preprocess_text(v))
                 ctx.expand_stack.append("frame:preprocess()")
                 ret = expand_all_templates(v)
                 ctx.expand_stack.pop()
